@@ -401,3 +401,4 @@ include!("c17/bind.rs");
 include!("c17/rows.rs");
 include!("c17/bindrow.rs");
 include!("c17/deser.rs");
+include!("c17/batchbind.rs");
